@@ -192,9 +192,11 @@ theorem execS_assign (fuel : Nat) (n : String) (e : X.Expr) (σ : X.St) (hp : pu
               · rw [hl'] at hv; simp at hv
               · rw [hg'] at hv; simp at hv
         have hloc : ∃ ad, K.loc n = some ad := by
-          by_cases hsc : sym.scope = ""
-          · obtain ⟨j, k, _, _, h3⟩ := wf.var_global n sym hl hsc; exact ⟨_, h3⟩
-          · obtain ⟨_, ad, _, h3⟩ := wf.var_local n sym hl hsc; exact ⟨_, h3⟩
+          apply rep1.locs n
+          unfold IsVar
+          rcases writeName_cases K.xc s σ' n w hw with ⟨o, hl', _⟩ | ⟨hl', hg', _⟩
+          · exact Or.inl ⟨o, hl'⟩
+          · exact Or.inr ⟨hl', hg'⟩
         obtain ⟨ad, hloc⟩ := hloc
         obtain ⟨b2, st2⟩ := exec_assignTail K exitJ wf n sym (i + (K.low c).length) w b' mem' σ.io s ad hl hat.right rep1 hloc
         refine ⟨w, b2, mem'.write ad w, ?_, rep1.assign wf hw hloc⟩
